@@ -66,22 +66,28 @@ class WriteLog:
 
     def __enter__(self):
         import aspire.samplers.base as sb
+        import aspire.utils as ut
 
-        self._sb = sb
-        self._orig = sb.dump_state
         log = self
+        self._patched = []
+        orig = ut.dump_state
 
         def logged(state, fp, path=None, dsetname="state", protocol=pickle.HIGHEST_PROTOCOL):
             blob = pickle.dumps(state, protocol=protocol)
-            res = log._orig(state, fp, path=path, dsetname=dsetname, protocol=protocol)
+            res = orig(state, fp, path=path, dsetname=dsetname, protocol=protocol)
             log.writes.append({"iteration": state.get("iteration"), "blob": blob, "path": path, "dset": dsetname})
             return res
 
-        sb.dump_state = logged
+        # the function object is reachable through the defining module and through every module that imported it by name
+        for mod in (ut, sb):
+            if getattr(mod, "dump_state", None) is orig:
+                self._patched.append((mod, orig))
+                mod.dump_state = logged
         return self
 
     def __exit__(self, *a):
-        self._sb.dump_state = self._orig
+        for mod, orig in self._patched:
+            mod.dump_state = orig
 
 
 class CkptProblem(rc.Problem):
